@@ -9,6 +9,9 @@
 (*                    alphabet ALPHA ("full" or "small")                   *)
 (*  MODE = "sent"   : every ABNF sentence of 1..N tokens with its          *)
 (*                    parenthesised spelling and three documents           *)
+(*  MODE = "uni"    : Unicode class probes after token-starting characters  *)
+(*  MODE = "numerals": number-token spellings (leading zeros, long digit  *)
+(*                    runs, multi-digit negatives, 32-bit limits)         *)
 (*  MODE = "spell"  : token sequences read from IOEnv.IN (random, drawn by *)
 (*                    the driver), spelled here, with parenthesised form   *)
 (***************************************************************************)
@@ -76,7 +79,7 @@ SentCases(zzdummy) ==
 
 (* operator chains: a primary followed by every sequence of 1..N postfix operators, also under "!" and as the
    right operand of a comparison (every pair and chain of postfix operators is juxtaposed) *)
-Postfix == {<<"Dot", "Ident">>, <<"Lbracket", "Num", "Rbracket">>, <<"Lbracket", "Star", "Rbracket">>, <<"Flatten">>,
+Postfix == {<<"Dot", "Ident">>, <<"Dot", "QIdent">>, <<"Lbracket", "Num", "Rbracket">>, <<"Lbracket", "Star", "Rbracket">>, <<"Flatten">>,
             <<"Filter", "Ident", "Rbracket">>, <<"Lbracket", "Num", "Colon", "Rbracket">>, <<"Dot", "Star">>,
             <<"Dot", "Lbrace", "Ident", "Colon", "Ident", "Rbrace">>, <<"Dot", "Lbracket", "Ident", "Rbracket">>}
 RECURSIVE ChainsOf(_)
@@ -88,6 +91,52 @@ ChainCases(zzdummy) ==
   LET all == SetToSeq(ChainKinds(0)) docs == Docs
   IN [i \in DOMAIN all |-> SentCase(Toks(all[i]), docs)]
 
+(* juxtapositions: two sentences of at most N tokens written one after the other, the first also inside parentheses -- mostly
+   non-sentences (two operands without an operator, a call applied to a group), a few sentences (`a` `[0]`) *)
+JuxtaCases(zzdummy) ==
+  LET G == Sets(N)
+      S == SetToSeq(UNION {G.E[n] : n \in 1..N})
+      n == Len(S)
+      si(x) == ((x - 1) \div n) + 1
+      sj(x) == ((x - 1) % n) + 1
+  IN [x \in 1..(n * n) |-> [e |-> "lang", text |-> Spell(Toks(S[si(x)] \o S[sj(x)]), ModeAt(x), x % 2)]]
+     \o [x \in 1..(n * n) |-> [e |-> "lang", text |-> Spell(Toks(<<"Lparen">> \o S[si(x)] \o <<"Rparen">> \o S[sj(x)]), ModeAt(x), x % 2)]]
+
+(* Unicode class probes: a character of a class that Unicode-aware predicates (is_numeric, is_alphabetic, is_whitespace) accept
+   but the grammar does not, right after a character that starts a token; alone, continued, and inside the usual frames *)
+Probe == <<1635, 178, 189, 9312, 65297, 120783, 3047, 65313, 233, 1072, 160, 12288, 8232, 133, 8203, 65279, 127, 128, 769, 8255>>
+Entry == <<45, 49, 48, 97, 95, 34, 39, 96, 38, 124, 60, 61, 33, 91, 46, 64, 32, 42, 58, 44>>
+Frames == << <<<<>>, <<>>>>, <<<<64, 91>>, <<93>>>>, <<<<97, 91>>, <<58, 93>>>>, <<<<97, 91, 58>>, <<93>>>>,
+             <<<<97, 91, 63, 98, 32, 61, 61, 32>>, <<93>>>>, <<<<97, 46>>, <<>>>> >>
+UniCases(zzdummy) ==
+  LET cells == SetToSeq({<<c, u, f, k>> : c \in DOMAIN Entry, u \in DOMAIN Probe, f \in DOMAIN Frames, k \in 1..3})
+      tail(c, k) == CASE k = 1 -> <<>> [] k = 2 -> <<53>> [] k = 3 -> <<Entry[c]>>
+  IN [x \in DOMAIN cells |-> [e |-> "lang", text |-> Frames[cells[x][3]][1] \o <<Entry[cells[x][1]], Probe[cells[x][2]]>>
+                                                     \o tail(cells[x][1], cells[x][4]) \o Frames[cells[x][3]][2]]]
+
+(* number tokens: leading zeros, digit runs longer than the ten digits of 2^31, multi-digit negatives, the 32-bit limits *)
+DigStrs == <<"0", "00", "01", "007", "0000000000", "00000000001", "00000000000", "00000000000000000003", "02147483647", "002147483647",
+             "02147483648", "10", "11", "12", "13", "15", "19", "20", "21", "99", "100", "101", "110", "123", "1234567890",
+             "2147483647", "2147483648", "999999999", "1000000000", "4294967296", "4294967297", "99999999999">>
+DigCp(str) == CASE str = "0" -> <<48>> [] str = "00" -> <<48, 48>> [] str = "01" -> <<48, 49>> [] str = "007" -> <<48, 48, 55>>
+  [] str = "0000000000" -> [i \in 1..10 |-> 48] [] str = "00000000001" -> [i \in 1..11 |-> IF i = 11 THEN 49 ELSE 48]
+  [] str = "00000000000" -> [i \in 1..11 |-> 48] [] str = "00000000000000000003" -> [i \in 1..20 |-> IF i = 20 THEN 51 ELSE 48]
+  [] str = "02147483647" -> <<48, 50, 49, 52, 55, 52, 56, 51, 54, 52, 55>> [] str = "002147483647" -> <<48, 48, 50, 49, 52, 55, 52, 56, 51, 54, 52, 55>>
+  [] str = "02147483648" -> <<48, 50, 49, 52, 55, 52, 56, 51, 54, 52, 56>>
+  [] str = "10" -> <<49, 48>> [] str = "11" -> <<49, 49>> [] str = "12" -> <<49, 50>> [] str = "13" -> <<49, 51>> [] str = "15" -> <<49, 53>>
+  [] str = "19" -> <<49, 57>> [] str = "20" -> <<50, 48>> [] str = "21" -> <<50, 49>> [] str = "99" -> <<57, 57>> [] str = "100" -> <<49, 48, 48>>
+  [] str = "101" -> <<49, 48, 49>> [] str = "110" -> <<49, 49, 48>> [] str = "123" -> <<49, 50, 51>>
+  [] str = "1234567890" -> <<49, 50, 51, 52, 53, 54, 55, 56, 57, 48>> [] str = "2147483647" -> <<50, 49, 52, 55, 52, 56, 51, 54, 52, 55>>
+  [] str = "2147483648" -> <<50, 49, 52, 55, 52, 56, 51, 54, 52, 56>> [] str = "999999999" -> [i \in 1..9 |-> 57]
+  [] str = "1000000000" -> [i \in 1..10 |-> IF i = 1 THEN 49 ELSE 48] [] str = "4294967296" -> <<52, 50, 57, 52, 57, 54, 55, 50, 57, 54>>
+  [] str = "4294967297" -> <<52, 50, 57, 52, 57, 54, 55, 50, 57, 55>> [] str = "99999999999" -> [i \in 1..11 |-> 57]
+NumFrames == << <<<<64, 91>>, <<93>>>>, <<<<64, 91>>, <<58, 93>>>>, <<<<64, 91, 58>>, <<93>>>>, <<<<64, 91, 58, 58>>, <<93>>>>,
+                <<<<97, 91>>, <<93, 46, 98>>>>, <<<<97, 91, 49, 58>>, <<58, 50, 93>>>>, <<<<>>, <<>>>>, <<<<97, 91, 63, 98, 60>>, <<93>>>> >>
+NumeralCases(zzdummy) ==
+  LET cells == SetToSeq({<<d, f, sg>> : d \in DOMAIN DigStrs, f \in DOMAIN NumFrames, sg \in 0..1})
+  IN [x \in DOMAIN cells |-> [e |-> "lang", text |-> NumFrames[cells[x][2]][1] \o (IF cells[x][3] = 1 THEN <<45>> ELSE <<>>)
+                                                     \o DigCp(DigStrs[cells[x][1]]) \o NumFrames[cells[x][2]][2]]]
+
 SpellCases(zzdummy) ==
   LET ps == ndJsonDeserialize(IOEnv.IN)
       docs == Docs
@@ -95,7 +144,7 @@ SpellCases(zzdummy) ==
 
 Cases(zzdummy) == CASE IOEnv.MODE = "tokens" -> TokenCases(0) [] IOEnv.MODE = "chars" -> CharCases(0) [] IOEnv.MODE = "near" -> NearCases(0)
            [] IOEnv.MODE = "sent" -> SentCases(0) [] IOEnv.MODE = "spell" -> SpellCases(0)
-           [] IOEnv.MODE = "chains" -> ChainCases(0)
+           [] IOEnv.MODE = "chains" -> ChainCases(0) [] IOEnv.MODE = "juxta" -> JuxtaCases(0) [] IOEnv.MODE = "uni" -> UniCases(0) [] IOEnv.MODE = "numerals" -> NumeralCases(0)
 
 ASSUME ndJsonSerialize(IOEnv.OUT, Cases(0))
 ASSUME ndJsonSerialize(IOEnv.OUT \o ".docs", <<[docs |-> Docs]>>)
